@@ -22,7 +22,9 @@ RULE = (
     "Levenshtein for equal costs, and follow the 0/1 empty-reference convention. "
     "minimum_error_rate_loss: every (N<=2, M in {2,3}) sample set drawn from a seed-rotated slice of the "
     "same string space, 2-D and 3-D references, all reductions, sub_avg both. Distinct by "
-    "construction; non-trivial = counted ref and hyp differ and are non-empty."
+    "construction; non-trivial = counted ref and hyp differ and are non-empty. Plus larger instances (R,H,N) = "
+    "(63,60,90), (127,120,40), handed in as offset non-contiguous views, against an integer DP carrying fewest/most edits; "
+    "module objects are reused across unrelated calls and arguments must come back unchanged."
 )
 ASSUMPTIONS = [
     "small-scope: alphabet of 3 symbols, lengths <= 3/4, fixed cost menu",
@@ -37,6 +39,8 @@ def shards(tier, seed):
     L = S.max_len(tier)
     out = [{"kind": "pairs", "R": R, "H": H} for R in range(L + 1) for H in range(L + 1)]
     out += [{"kind": "mer", "part": p} for p in range(16)]
+    out += [{"kind": "large", "dims": d, "cost": c} for d in ([63, 60, 90], [127, 120, 40])
+            for c in ((1.0, 1.0, 1.0), (1.0, 0.5, 2.0))]
     return out
 
 
@@ -285,8 +289,66 @@ def _mer_shard(ctx, part, nparts, tier, seed):
     ctx.sample({"mer_part": part, "example_hyps": hyps, "example_refs": refs, "logp": logp})
 
 
+def _large(ctx, R, H, N, cost, seed):
+    """Larger instance handed in as offset, non-contiguous views: error_rate / prefix_error_rates against an
+    integer DP carrying the fewest and most edits over optimal alignments."""
+    eos = 3
+    refs, hyps, ref, hyp = S.large_batch(R, H, N, seed, eos)
+    ci, cd, cs = (int(round(c * 2)) for c in cost)
+    uniform = cost[0] == cost[1] == cost[2]
+    for include_eos in (False, True):
+        exp = []
+        for n in range(N):
+            er, eh = O.effective(refs[n], eos, include_eos), O.effective(hyps[n], eos, include_eos)
+            outs, _ = O.lev_int_full(er, eh, 1, 1, 1) if uniform else O.lev_int_full(er, eh, ci, cd, cs)
+            exp.append((outs, len(er), len(eh)))
+        for norm, batch_first in itertools.product((False, True), (False, True)):
+            r_in, h_in = (ref.t(), hyp.t()) if batch_first else (ref, hyp)
+            r0, h0 = r_in.clone(), h_in.clone()
+            kw = dict(eos=eos, include_eos=include_eos, norm=norm, batch_first=batch_first, ins_cost=cost[0],
+                      del_cost=cost[1], sub_cost=cost[2])
+            case = {"kind": "large", "R": R, "H": H, "N": N, "cost": cost, "seed": seed, **kw}
+            ctx.case(2 * N, 2 * N)
+            try:
+                er_out = F.error_rate(r_in, h_in, warn=False, **kw).tolist()
+                pe = F.prefix_error_rates(r_in, h_in, warn=False, **kw)
+                pe = (pe if batch_first else pe.t()).tolist()
+            except Exception as e:
+                ctx.violation({"api": "error_rate", "symptom": "raises", "type": type(e).__name__, "large": True},
+                              case, {"error": str(e)[-300:]})
+                continue
+            if not (torch.equal(r0, r_in) and torch.equal(h0, h_in)):
+                ctx.violation({"api": "error_rate", "symptom": "argument-modified-in-place", "large": True}, case, {})
+                continue
+            for n in range(N):
+                outs, lr, lh = exp[n]
+                d = float(lr) if (norm and lr) else 1.0
+                lo, hi = outs[lh][1] / d, outs[lh][2] / d
+                if norm and lr == 0:
+                    lo = hi = 0.0 if lh == 0 else 1.0
+                bad = not (lo - 1e-4 <= er_out[n] <= hi + 1e-4)
+                j = lh // 2
+                plo, phi = outs[j][1] / d, outs[j][2] / d
+                if norm and lr == 0:
+                    plo = phi = 0.0 if j == 0 else 1.0
+                badp = not (plo - 1e-4 <= pe[n][j] <= phi + 1e-4) or pe[n][lh + 1:] != [float(config.INDEX_PAD_VALUE)] * (H - lh)
+                if bad or badp:
+                    ctx.violation({"api": "error_rate" if bad else "prefix_error_rates", "large": True,
+                                   "symptom": "count-outside-optimal-alignments", "norm": norm, "uniform": uniform},
+                                  dict(case, pair=n), {"range": [lo, hi], "observed": er_out[n],
+                                                       "prefix": j, "prefix_range": [plo, phi],
+                                                       "prefix_observed": pe[n][j]})
+                    break
+            else:
+                ctx.outcome(round(sum(er_out) * 16))
+    ctx.sample({"large_instance": {"R": R, "H": H, "N": N, "cost": cost, "layout": "offset non-contiguous views"}})
+
+
 def run_shard(spec, tier, seed):
     ctx = Ctx()
+    if spec["kind"] == "large":
+        _large(ctx, *spec["dims"], tuple(spec["cost"]), seed)
+        return ctx
     if spec["kind"] == "mer":
         _mer_shard(ctx, spec["part"], 16, tier, seed)
         return ctx
@@ -319,6 +381,9 @@ def run_shard(spec, tier, seed):
 
 def replay(case):
     ctx = Ctx()
+    if case["kind"] == "large":
+        _large(ctx, case["R"], case["H"], case["N"], tuple(case["cost"]), case["seed"])
+        return ctx
     if case["kind"] == "mer":
         _mer_case(ctx, case["refs"], case["hyps"], case["logp"], case["eos"], case["include_eos"],
                   (case["ins_cost"], case["del_cost"], case["sub_cost"]), case["norm"], case["sub_avg"],
